@@ -274,6 +274,11 @@ func (l *log) Get(offset int64) (message.Message, error) {
 	if err == index.ErrOffsetAfterEnd && segmentIndex < len(l.readers)-1 {
 		return msg, index.ErrOffsetNotFound
 	}
+	if err == index.ErrOffsetIndexEmpty && offset == message.OffsetNewest && segmentIndex > 0 {
+		// the head segment is empty (e.g. the newest messages were deleted),
+		// the newest message is the last one of the previous segment
+		return l.readers[segmentIndex-1].Get(offset)
+	}
 	return msg, err
 }
 
@@ -339,9 +344,19 @@ func (l *log) GetByTime(start time.Time) (message.Message, error) {
 			// time is between end of this and begin next
 			if i < len(l.readers)-1 {
 				nextRdr := l.readers[i+1]
-				return nextRdr.Get(message.OffsetOldest)
+				msg, err := nextRdr.Get(message.OffsetOldest)
+				if err == index.ErrOffsetIndexEmpty {
+					// next is an empty head segment, so time is after all messages
+					return message.Invalid, errTimeNotFound
+				}
+				return msg, err
 			}
 			return message.Invalid, errTimeNotFound
+		case index.ErrTimeIndexEmpty:
+			// an empty head segment, try the rest
+			if i == 0 {
+				return message.Invalid, err
+			}
 		default:
 			return message.Invalid, err
 		}
